@@ -417,3 +417,48 @@ func (c *Case) RTOrT(t *testing.T) Failer {
 	}
 	return t
 }
+
+// Enumerate runs prop once per cell (a cell is a list of draws fed to the case), honouring
+// VERIF_SHARD=i/n, and stops at the first violation. In replay mode it behaves like Check.
+func (s *Stats) Enumerate(t *testing.T, o CheckOpts, cells [][]Draw, prop func(c *Case)) {
+	if s.replay != nil {
+		s.Check(t, o, prop)
+		return
+	}
+	shard, shards := 0, 1
+	fmt.Sscanf(os.Getenv("VERIF_SHARD"), "%d/%d", &shard, &shards)
+	for i, cell := range cells {
+		if shards > 1 && i%shards != shard {
+			continue
+		}
+		s.progress.Add(1)
+		c := s.newCase(nil)
+		c.Src = &listSrc{draws: cell, c: c}
+		failed := ""
+		func() {
+			defer func() {
+				if r := recover(); r != nil {
+					switch x := r.(type) {
+					case replayFail:
+						failed = x.msg
+					case abandonCase:
+					default:
+						panic(r)
+					}
+				}
+			}()
+			run := func() {
+				defer c.finish()
+				prop(c)
+			}
+			if o.Bubble {
+				syncTestPlain(t, run)
+			} else {
+				run()
+			}
+		}()
+		if failed != "" {
+			t.Fatalf("VIOLATION %s: %s", s.Property, failed)
+		}
+	}
+}
